@@ -137,7 +137,12 @@ def compare_case(mod, d, case, gen, opts):
     if ro["st"] != u["st"]:
         mm.append(("conf_outcome", "code %s, specification %s%s" % (
             ro["st"], u["st"], (" err=%r" % (ro.get("err"),)) if ro["st"] == "fail" else "")))
-        return mm, ro, None
+        po = None
+        if ro["st"] == "done" and opts.get("pack", True):
+            # the code accepted an input the specification rejects: its own parse-then-serialise is still recorded, so that
+            # the round-trip predicates (C01) are evaluated on what the code did with it
+            po = run_pack(mod, ro["pkt"])
+        return mm, ro, po
     if u["st"] == "done":
         if opts.get("cursor", True) and ro["endc"] != u["cur"]:
             mm.append(("conf_end", "code %r, specification %r" % (ro["endc"], u["cur"])))
